@@ -66,15 +66,16 @@ Definition C35_full_statement : Prop :=
   let st1 := dml_insert s0 in let s1 := set_persisted (insert_mark s0) in
   let s2 := [kcol 0 true 1; kcol 1 false 2; xcol VNone (VInt 5) false] in          (* del inst.x *)
   let st2 := dml_update s2 in let s3 := set_persisted s2 in
-  let s4 := [kcol 0 true 1; kcol 1 false 2; xcol (VInt 5) (VInt 5) true] in        (* inst.x = 5 *)
+  let s4 := [kcol 0 true 1; kcol 1 false 2; xcol (VInt 5) VNone true] in            (* inst.x = 5 *)
   let st3 := dml_update s4 in
-  s1 = [kcol 0 true 1; kcol 1 false 2; xcol (VInt 5) (VInt 5) false] /\ s3 = s2 /\
+  s1 = [kcol 0 true 1; kcol 1 false 2; xcol (VInt 5) (VInt 5) false] /\ s3 = [kcol 0 true 1; kcol 1 false 2; xcol VNone VNone false] /\
   read_row sc35 (exec_all sc35 [] (st1 ++ st2 ++ st3)) 1 (Some 2) [3] = [(3, VInt 5)].
 
-(* C35-3: Model._set_persisted does not reset previous_value of a deleted column, so the re-assignment is considered unchanged *)
-Theorem C35_persist_refuted_stale_previous : ~ C35_full_statement.
-Proof. unfold C35_full_statement. vm_compute. intros (_ & _ & H). discriminate H. Qed.
-Print Assumptions C35_persist_refuted_stale_previous.
+(* C35-3 (fixed in the driver): Model._set_persisted now also resets the manager of a column it has just deleted, so the re-assignment
+   of the old value is written.  Before the fix s3 = s2 held (stale previous_value 5) and the row kept null. *)
+Theorem C35_persist_del_then_set : C35_full_statement.
+Proof. unfold C35_full_statement. vm_compute. repeat split. Qed.
+Print Assumptions C35_persist_del_then_set.
 
 (* C35-4: blind removal of no keys / blind update with no entries is rendered as an assignment of the empty map *)
 Theorem C35_blind_map_empty_refuted :
